@@ -127,8 +127,8 @@ def make_variant(rng, base_text, index):
     if index == 0:
         return base_text, {"variant": "base"}
     head, blocks, tail = split_decls(base_text)
-    classes = [b for b in blocks if b.startswith(("- decl: class", "- decl: template"))]
-    funcs = [b for b in blocks if not b.startswith(("- decl: class", "- decl: template"))]
+    classes = [b for b in blocks if b.startswith(("- decl: class", "- decl: template", "- decl: struct"))]
+    funcs = [b for b in blocks if not b.startswith(("- decl: class", "- decl: template", "- decl: struct"))]
     extras = rng.sample(EXTRA_DECLS, rng.randint(0, len(EXTRA_DECLS)))
     extra_classes = [e for e in extras if e.startswith("- decl: class")]
     extra_funcs = [e for e in extras if not e.startswith("- decl: class")]
@@ -153,7 +153,7 @@ def make_variant(rng, base_text, index):
 
 def decl_name(block):
     first = block.split("\n", 1)[0]
-    m = re.match(r"- decl: (?:template<[^>]*> )?(?:class|namespace) (\w+)", first)
+    m = re.match(r"- decl: (?:template<[^>]*> )?(?:class|namespace|struct) (\w+)", first)
     if m:
         return m.group(1)
     m = re.search(r"(\w+)\s*\(", first)
@@ -164,8 +164,9 @@ def decl_name(block):
 # kinds of releasable memory
 SUBSET_RECIPES = [("arrNew",), ("arrNew", "arrNewPat"), ("strOwned",), ("vecRet",), ("Item",), ("Holder",),
                   ("arrNewAlloc",), ("vecRetD",), ("vecAlloc",), ("Box", "makeBox"), ("strVal",), ("deep",),
-                  ("Item", "makeItem", "copyItem"), ("vecIota", "vecAlloc", "vecRet")]
-NEEDS_CLASS = {"makeItem": "Item", "borrowItem": "Item", "defaultItem": "Item", "copyItem": "Item", "useItem": "Item",
+                  ("Item", "makeItem", "copyItem"), ("vecIota", "vecAlloc", "vecRet"),
+                  ("Pt", "ptSum", "ptOut"), ("Arr", "arrTotal"), ("Pt", "Arr", "arrTotal", "ptScale")]
+NEEDS_CLASS = {"ptSum": "Pt", "ptOut": "Pt", "ptScale": "Pt", "arrTotal": "Arr", "makeItem": "Item", "borrowItem": "Item", "defaultItem": "Item", "copyItem": "Item", "useItem": "Item",
                "sumItems": "Item", "passItem": "Item", "refItem": "Item", "makeBox": "Box"}
 # declarations that (as documented) hand nothing to the caller that needs releasing
 NEUTRAL = ["strRef", "strLib", "strIn", "charOut", "charRet", "charInout", "arrLib", "arrSum", "arrFillOut",
@@ -193,8 +194,8 @@ def make_variant_subset(rng, base_text, index):
     if not keep:
         keep = {"arrNew"}
     kept = [b for b, n in zip(blocks, names) if n in keep]
-    classes = [b for b in kept if b.startswith(("- decl: class", "- decl: template"))]
-    funcs = [b for b in kept if not b.startswith(("- decl: class", "- decl: template"))]
+    classes = [b for b in kept if b.startswith(("- decl: class", "- decl: template", "- decl: struct"))]
+    funcs = [b for b in kept if not b.startswith(("- decl: class", "- decl: template", "- decl: struct"))]
     rng.shuffle(classes)
     rng.shuffle(funcs)
     if "arrNewPat" not in keep:
@@ -247,7 +248,7 @@ class Build(object):
                     return word in fp.read()
             except OSError:
                 return False
-        for cls in ("Item", "Box", "Holder", "deep"):
+        for cls in ("Item", "Box", "Holder", "deep", "Pt"):
             if self.have is None or cls in self.have:
                 flags.append("-DHAVE_" + cls)
         if has("typessimlib.h", "SIM_SHROUD_array"):
